@@ -58,8 +58,24 @@ def run(chk):
             lv_ok = log == [("x", L + delta)]
             lit_ok = same_node(node, got) is None and spl is False
             chk.case((L, head))
+            rp = None
+            k = L + delta
+            if not (lv_ok and lit_ok) and L >= 1 and k >= 1:
+                # replay through the whole pipeline: L nested quasiquotes around (HEAD ~~...~y) with as many unquotes as the level the
+                # child is rendered at: exactly the innermost unquote is evaluated
+                def nest(n_, inner, sym="quasiquote"):
+                    return inner if n_ == 0 else Expression([Symbol(sym), nest(n_ - 1, inner, sym)])
+                form = nest(L, Expression([Symbol(head), nest(k, Symbol("y"), "unquote")]))
+                want = nest(L - 1, Expression([Symbol(head), nest(k - 1, Integer(7), "unquote")]))
+                try:
+                    got2 = hy.eval(form, {"y": 7}, module=types.ModuleType("hv_c31r"))
+                    diff = same_node(want, hy.as_model(got2))
+                except Exception as e:  # noqa: BLE001
+                    diff = f"{type(e).__name__}: {e}"
+                rp = {"confirmed": diff is not None, "input": hy.repr(form).lstrip("'") + " with y = 7", "observed": diff,
+                      "expected": hy.repr(want).lstrip("'")}
             chk.ob(f"levels/{head} at level {L}: stays literal, children rendered at level {L + delta}", lv_ok and lit_ok,
-                   "structural", "proved", detail=f"calls={log} literal={same_node(node, got)}")
+                   "structural", "proved", detail=f"calls={log} literal={same_node(node, got)}", replay=rp)
         for kname, mk in seq_kinds().items():
             toks = [Tok("a", "E"), Tok("b", "E")]
             log = []
